@@ -127,6 +127,8 @@ pub enum Op {
     CreateKs { ks: u8, cfg: u32 },
     DeleteKs { ks: u8 },
     DropHandle { ks: u8 },
+    /// delete_keyspace through a kept handle of an already deleted incarnation of the name
+    DeleteStale { ks: u8 },
     Rotate { ks: u8 },
     Step { n: u32 },
     Drain,
@@ -164,6 +166,7 @@ impl Op {
             Op::CreateKs { .. } => "create_ks",
             Op::DeleteKs { .. } => "delete_ks",
             Op::DropHandle { .. } => "drop_handle",
+            Op::DeleteStale { .. } => "delete_stale",
             Op::Rotate { .. } => "rotate",
             Op::Step { .. } => "step",
             Op::Drain => "drain",
@@ -210,6 +213,7 @@ impl Op {
             Op::CreateKs { ks, cfg } => format!("create_ks {ks} {cfg}"),
             Op::DeleteKs { ks } => format!("delete_ks {ks}"),
             Op::DropHandle { ks } => format!("drop_handle {ks}"),
+            Op::DeleteStale { ks } => format!("delete_stale {ks}"),
             Op::Rotate { ks } => format!("rotate {ks}"),
             Op::Step { n } => format!("step {n}"),
             Op::Drain => "drain".to_string(),
@@ -290,6 +294,9 @@ impl Op {
                 ks: it.next()?.parse().ok()?,
             },
             "drop_handle" => Op::DropHandle {
+                ks: it.next()?.parse().ok()?,
+            },
+            "delete_stale" => Op::DeleteStale {
                 ks: it.next()?.parse().ok()?,
             },
             "rotate" => Op::Rotate {
